@@ -268,6 +268,7 @@ fn gen_file(cst: &Cst<'_>, node_ref: NodeRef, items: &mut PrintItems) {
                 space_before_comment(cst, &span, items, true);
                 items.push_string(txt.to_string());
                 items.push_signal(Signal::SpaceIfNotTrailing);
+                line_start = false;
             }
             Node::Token(Token::Whitespace, idx) => {
                 let txt = cst.span_text(idx);
@@ -286,6 +287,7 @@ fn gen_file(cst: &Cst<'_>, node_ref: NodeRef, items: &mut PrintItems) {
                     items.push_signal(Signal::ExpectNewLine);
                 }
                 gen_node(cst, child_node_ref, items);
+                line_start = false;
             }
         }
     }
